@@ -253,11 +253,12 @@ def run(chk):
         chk.broken("proof obligation Properties/C04.v no longer checks (%s)" % where, pout)
     chk.finish(
         level="proof",
-        rule="one run per (variant, mutation) where the variant's handshake contains the message and field: 16 variants "
+        rule="one run per (variant, mutation) where the variant's handshake contains the message and field: %d variants "
              "({cert, cert+client-auth, PSK, ECDHE-PSK} x {EMS Request, Disable} x full, {cert, PSK} x EMS x resumed, 2 with "
-             "connection IDs, 2 DTLS 1.3 incl. HelloRetryRequest) x 59 mutations over ClientHello, HelloVerifyRequest, "
+             "connection IDs, 2 DTLS 1.3 incl. HelloRetryRequest) x %d mutations over ClientHello, HelloVerifyRequest, "
              "ServerHello, Certificate (both directions), ServerKeyExchange, CertificateRequest, ClientKeyExchange, "
-             "CertificateVerify. Non-trivial = every rewritten run; distinct by (variant, mutation).",
+             "CertificateVerify. Non-trivial = every rewritten run; distinct by (variant, mutation)." % (
+                 len({c["variant"]["name"] for c in rows}), len({c["mut"] for c in cases})),
         assumptions=["hash, PRF, pairing injective (premises PRF_inj, pair_inj, H_inj of the theorems); signatures / AEAD "
                      "idealised: a CertificateVerify verifies iff the two transcripts up to ClientKeyExchange are equal, a "
                      "record opens iff both sides derived the same key block",
